@@ -449,8 +449,8 @@ def generate_richardson_integrator(basis_integrator, richardson_iter=2):
             self.numel = 1
             for i in self.dim:
                 self.numel *= int(i)
-            self.rtol = kwargs.get("rtol") if kwargs.get("rtol", None) is not None else 32 * D.epsilon()
-            self.atol = kwargs.get("atol") if kwargs.get("atol", None) is not None else 32 * D.epsilon()
+            self.rtol = kwargs.get("rtol") if kwargs.get("rtol", None) is not None else 32 * D.epsilon(kwargs.get("dtype"))
+            self.atol = kwargs.get("atol") if kwargs.get("atol", None) is not None else 32 * D.epsilon(kwargs.get("dtype"))
             self.dtype = kwargs.get("dtype")
             self.device = kwargs.get("device", None)
             self.array_constructor_kwargs = dict(dtype=self.dtype)
